@@ -465,47 +465,47 @@ inductive LinShape (A0 : Eff Content MetaRec WalRec LogRec → Prop)
       (h : PostG ok ⟨applyEff dA (.setMeta m1), []⟩ post) :
       LinShape A0 ok pre dA m1 2 (pre ++ ([Ev.eff (.setMeta m1), Ev.fsync File.fMeta] ++ post))
 
-/-- **Bridge**: an accepted concurrent trace `cpre ++ [Begin of the meta write] ++ crest` started on the flushed disk
-`d0`.  The linearisation `pre` of `cpre` consists of `A0` effects and fsyncs and is FLUSHED (the hypothesis `hflushed` of
-the crash theorems); and the linearisation of EVERY prefix of the whole trace consists of `A0` effects and fsyncs only,
-or is `pre ++ [meta write]`, or is `pre ++ [meta write, meta fsync] ++ post` with `post` accepted event by event. -/
-theorem accepted_bridge (A0 : Eff Content MetaRec WalRec LogRec → Prop)
+/-- **Bridge**, started in an arbitrary concurrent state `s0` whose pending effects satisfy `A0` (e.g. the un-synced WAL
+truncation the previous sync left behind): an accepted concurrent trace `cpre ++ [Begin of the meta write] ++ crest`.
+The linearisation `pre` of `cpre` — a sequential trace run from the FLUSHED state `⟨s0.dur, []⟩` — consists of `A0`
+effects and fsyncs and is FLUSHED (the hypothesis `hflushed` of the crash theorems); and the linearisation of EVERY
+prefix of the whole trace consists of `A0` effects and fsyncs only, or is `pre ++ [meta write]`, or is
+`pre ++ [meta write, meta fsync] ++ post` with `post` accepted event by event. -/
+theorem accepted_bridge_from (A0 : Eff Content MetaRec WalRec LogRec → Prop)
     (ok : Disk Content MetaRec WalRec LogRec → Eff Content MetaRec WalRec LogRec → Prop)
     (hstab : ∀ d d' e e', ok d e → ok d' e' → ok (applyEff d e') e)
-    (d0 : Disk Content MetaRec WalRec LogRec)
+    (s0 : CState Content MetaRec WalRec LogRec) (hvol0 : ∀ e ∈ s0.volEffs, A0 e)
     (cpre crest : List (CEv Content MetaRec WalRec LogRec)) (id : Nat) (m1 : MetaRec)
-    (hacc : cAll (accChk A0 ok) 0 (cinit d0) (cpre ++ CEv.effBegin id (.setMeta m1) :: crest)) :
-    (∀ ev ∈ lin d0 cpre, EvA A0 ev) ∧
-    (run ⟨d0, []⟩ (lin d0 cpre)).vol = [] ∧
-    (run ⟨d0, []⟩ (lin d0 cpre)).dur = (crun (cinit d0) cpre).dur ∧
+    (hacc : cAll (accChk A0 ok) 0 s0 (cpre ++ CEv.effBegin id (.setMeta m1) :: crest)) :
+    (∀ ev ∈ linFrom s0 cpre, EvA A0 ev) ∧
+    (run ⟨s0.dur, []⟩ (linFrom s0 cpre)).vol = [] ∧
+    (run ⟨s0.dur, []⟩ (linFrom s0 cpre)).dur = (crun s0 cpre).dur ∧
     ∀ cp, cp <+: cpre ++ CEv.effBegin id (.setMeta m1) :: crest →
-      LinShape A0 ok (lin d0 cpre) (crun (cinit d0) cpre).dur m1 (phRun 0 (cinit d0) cp) (lin d0 cp) := by
+      LinShape A0 ok (linFrom s0 cpre) (crun s0 cpre).dur m1 (phRun 0 s0 cp) (linFrom s0 cp) := by
   have hmb : (CEv.effBegin id (.setMeta m1) : CEv Content MetaRec WalRec LogRec).isMetaBegin = true := rfl
-  obtain ⟨hph0, hA0⟩ := phase0_before_meta A0 ok (cinit d0) cpre _ _ (by simp) hmb hacc
+  obtain ⟨hph0, hA0⟩ := phase0_before_meta A0 ok s0 cpre _ _ (by simp) hmb hacc
   have hacc0 := hacc
   rw [cAll_append] at hacc
   obtain ⟨hacc1, hacc2⟩ := hacc
   rw [hph0] at hacc2
-  have hvolA : (crun (cinit d0) cpre).vol = [] := by
+  have hvolA : (crun s0 cpre).vol = [] := by
     have := hacc2.1
     simp only [accChk, Eff.isMeta, if_true] at this
     exact this.2
-  have hpreA : ∀ ev ∈ lin d0 cpre, EvA A0 ev := lin_all A0 d0 cpre hA0
-  have hlin_pre : lin d0 cpre = linDRun (cinit d0) cpre := by
-    simp [lin, CState.volEffs, hvolA]
+  have hpreA : ∀ ev ∈ linFrom s0 cpre, EvA A0 ev := linFrom_all A0 s0 cpre hvol0 hA0
   refine ⟨hpreA, ?_, ?_, ?_⟩
-  · rw [run_lin]; simp [CState.toExec, CState.volEffs, hvolA]
-  · rw [run_lin]; rfl
+  · rw [run_linFrom]; simp [CState.toExec, CState.volEffs, hvolA]
+  · rw [run_linFrom]; rfl
   · intro cp hcp
     rcases prefix_append_cases cpre _ cp hcp with h1 | ⟨t, ht, rfl⟩
     · -- the switch-over has not been issued
       obtain ⟨r, hr⟩ := h1
-      have hp0 : phRun 0 (cinit d0) cp = 0 := by
+      have hp0 : phRun 0 s0 cp = 0 := by
         rw [← hr, List.append_assoc] at hacc0
-        exact (phase0_before_meta A0 ok (cinit d0) cp _ _ (by simp) hmb hacc0).1
+        exact (phase0_before_meta A0 ok s0 cp _ _ (by simp) hmb hacc0).1
       rw [hp0]
       apply LinShape.before
-      apply lin_all A0 d0 cp
+      apply linFrom_all A0 s0 cp hvol0
       intro e he
       apply hA0
       rw [← hr]
@@ -520,23 +520,23 @@ theorem accepted_bridge (A0 : Eff Content MetaRec WalRec LogRec → Prop)
           rw [List.cons_prefix_cons] at ht; exact ht
         obtain ⟨rfl, ⟨r, hr⟩⟩ := hq
         -- the state right after the Begin of the meta write
-        have hacc3 : cAll (accChk A0 ok) 1 (cstep (crun (cinit d0) cpre) (CEv.effBegin id (.setMeta m1))) q := by
+        have hacc3 : cAll (accChk A0 ok) 1 (cstep (crun s0 cpre) (CEv.effBegin id (.setMeta m1))) q := by
           have := hacc2.2
           simp only [nextPhase, Eff.isMeta, and_self, if_true] at this
           rw [← hr, cAll_append] at this
           exact this.1
-        have hJ1 : J ok (crun (cinit d0) cpre).dur m1 1
-            (cstep (crun (cinit d0) cpre) (CEv.effBegin id (.setMeta m1))) [] :=
+        have hJ1 : J ok (crun s0 cpre).dur m1 1
+            (cstep (crun s0 cpre) (CEv.effBegin id (.setMeta m1))) [] :=
           Or.inl ⟨rfl, rfl, by simp only [cstep, CState.volEffs, hvolA]; rfl, rfl⟩
-        have hJ := J_run A0 ok hstab (crun (cinit d0) cpre).dur m1 q 1 _ [] hJ1 hacc3
-        have hlin : lin d0 (cpre ++ CEv.effBegin id (.setMeta m1) :: q) =
-            lin d0 cpre ++ (linDRun (cstep (crun (cinit d0) cpre) (CEv.effBegin id (.setMeta m1))) q ++
-              (crun (cstep (crun (cinit d0) cpre) (CEv.effBegin id (.setMeta m1))) q).volEffs.map Ev.eff) := by
-          have hve : (crun (cinit d0) cpre).volEffs = [] := by simp [CState.volEffs, hvolA]
-          simp only [lin, linDRun_append, crun_append, crun_cons, linDRun, List.append_assoc]
+        have hJ := J_run A0 ok hstab (crun s0 cpre).dur m1 q 1 _ [] hJ1 hacc3
+        have hlin : linFrom s0 (cpre ++ CEv.effBegin id (.setMeta m1) :: q) =
+            linFrom s0 cpre ++ (linDRun (cstep (crun s0 cpre) (CEv.effBegin id (.setMeta m1))) q ++
+              (crun (cstep (crun s0 cpre) (CEv.effBegin id (.setMeta m1))) q).volEffs.map Ev.eff) := by
+          have hve : (crun s0 cpre).volEffs = [] := by simp [CState.volEffs, hvolA]
+          simp only [linFrom, linDRun_append, crun_append, crun_cons, linDRun, List.append_assoc]
           simp [linDStep, flushedBy, hve]
-        have hph : phRun 0 (cinit d0) (cpre ++ CEv.effBegin id (.setMeta m1) :: q) =
-            phRun 1 (cstep (crun (cinit d0) cpre) (CEv.effBegin id (.setMeta m1))) q := by
+        have hph : phRun 0 s0 (cpre ++ CEv.effBegin id (.setMeta m1) :: q) =
+            phRun 1 (cstep (crun s0 cpre) (CEv.effBegin id (.setMeta m1))) q := by
           rw [phRun_append, hph0]
           simp [phRun, nextPhase, Eff.isMeta]
         rw [hlin, hph]
@@ -549,6 +549,20 @@ theorem accepted_bridge (A0 : Eff Content MetaRec WalRec LogRec → Prop)
           apply LinShape.durable
           rw [postG_append, hrun]
           exact ⟨hpost, postG_effs ok _ _ hv⟩
+
+/-- **Bridge**, started on the flushed disk `d0` -/
+theorem accepted_bridge (A0 : Eff Content MetaRec WalRec LogRec → Prop)
+    (ok : Disk Content MetaRec WalRec LogRec → Eff Content MetaRec WalRec LogRec → Prop)
+    (hstab : ∀ d d' e e', ok d e → ok d' e' → ok (applyEff d e') e)
+    (d0 : Disk Content MetaRec WalRec LogRec)
+    (cpre crest : List (CEv Content MetaRec WalRec LogRec)) (id : Nat) (m1 : MetaRec)
+    (hacc : cAll (accChk A0 ok) 0 (cinit d0) (cpre ++ CEv.effBegin id (.setMeta m1) :: crest)) :
+    (∀ ev ∈ lin d0 cpre, EvA A0 ev) ∧
+    (run ⟨d0, []⟩ (lin d0 cpre)).vol = [] ∧
+    (run ⟨d0, []⟩ (lin d0 cpre)).dur = (crun (cinit d0) cpre).dur ∧
+    ∀ cp, cp <+: cpre ++ CEv.effBegin id (.setMeta m1) :: crest →
+      LinShape A0 ok (lin d0 cpre) (crun (cinit d0) cpre).dur m1 (phRun 0 (cinit d0) cp) (lin d0 cp) :=
+  accepted_bridge_from A0 ok hstab (cinit d0) (fun e he => by cases he) cpre crest id m1 hacc
 
 /-- **Bridge for a run that starts with the switch-over durable** (the recovery performed by `open`): if the concurrent
 trace `ct`, started on the flushed disk `d` in phase 2, is accepted, the linearisation of EVERY prefix is a sequential
